@@ -93,6 +93,8 @@ Inject(a) ==
   /\ Emit([op |-> "Inject", a |-> a, ret |-> "ok", chk |-> Chk])
 
 NewValid(nk) == nk = "fresh" \/ (nk = "same" /\ cls = "short")
+RetSetPasswd(old, nk) == IF old = "right" /\ NewValid(nk) THEN "ok" ELSE "fail"
+RetUnlock(p) == IF p = "right" THEN "ok" ELSE "fail"
 
 SetPasswd(old, nk) ==
   /\ nops < MaxOps
